@@ -11,7 +11,7 @@ import (
 var rules = map[string]string{
 	"C14": "Each run draws one CLI session (1-3 real jd processes on the simulated OS: diff, round trip, translate, git-diff-driver, misuse, patch of a foreign document; both binaries and -v2=false; flags, carrier, stdin/file, -o, sector size, chunk plans all seeded) and evaluates the clauses of C14 on it: base (reference model: status, stdout, files, round trip under an independent comparator), stdin-equiv, xbin, and one fault case per I/O step and applicable failure followed by a fault-free retry. evaluations = evaluated (session, clause) cases. A case's signature is clause x session kind x per process (binary/mode/format, flag set, stdin/file, sequence of step kinds with injected fault kinds, exit status); it is non-trivial when some process rendered a non-empty diff or produced output with status 0/1. distinct_nontrivial = number of distinct signatures among non-trivial cases.",
 	"C13": "Each run draws a document lineage, a producer jd process writing a patch artefact (any binary, format, flags; sometimes the v1 dialect), storage/transport faults on the artefact (torn and short writes, kill, power loss with sector mixing and zero fill, bit flips, duplicate append, stale artefact) and a consumer (jd -p / jd -t, possibly with format/flag/carrier/version skew, on a stale/ahead/branch target, possibly with stdin faults), and feeds the same bytes to the library readers and Patch directly. evaluations = evaluated cases (one consumer execution plus the direct library calls each). Signature = producer config x fault kinds that fired x consumer config x consumer outcome class (accepted / rejected) x per-reader accept/reject; non-trivial when the artefact was non-empty and at least one fault or skew actually took effect. distinct_nontrivial = distinct signatures among non-trivial cases.",
-	"C15": "Each run draws a world (documents A, B; diffs under every option set; diffs read back from merge/patch/native text) and a history of up to 24 read-only calls (Diff, Equals, Render, Render COLOR, RenderPatch, RenderMerge, Json, Yaml, Read*String) on the shared values while every map range inside jd is permuted by the simulator; after each call output is compared with the same call on pristine deep copies under canonical order, every shared value is fingerprinted against its pristine twin, and at the end each live diff must patch like its never-rendered twin. evaluations = histories. Signature = set of call classes that occurred (Diff, Equals, Json/Yaml, Render, RenderPatch, RenderMerge, Read) x diff shape class (any multi-hunk diff, any multi-value hunk, any void addition) x merge/set readings present x map-order mode; non-trivial when a shared diff has >= 2 hunks, a multi-value hunk or a void addition. distinct_nontrivial = distinct signatures among non-trivial histories.",
+	"C15": "Each run draws a world (documents A, B; diffs under every option set; diffs read back from merge/patch/native text) and a history of up to 24 read-only calls (Diff, Equals, Render, Render COLOR, RenderPatch, RenderMerge, Json, Yaml, Read*String) on the shared values while every map range inside jd is permuted by the simulator; after each call output is compared with the same call on pristine deep copies under canonical order, every shared value is fingerprinted against its pristine twin, and at the end each live diff must patch like its never-rendered twin; half of the histories are then re-executed in another call order on fresh copies and must return the same outputs, and the coordinator compares a sample of histories between a process that ran nothing before and one that ran six other histories first. evaluations = histories. Signature = set of call classes that occurred (Diff, Equals, Json/Yaml, Render, RenderPatch, RenderMerge, Read) x diff shape class (any multi-hunk diff, any multi-value hunk, any void addition) x merge/set readings present x map-order mode; non-trivial when a shared diff has >= 2 hunks, a multi-value hunk or a void addition. distinct_nontrivial = distinct signatures among non-trivial histories.",
 }
 
 var components = map[string]any{
